@@ -449,6 +449,18 @@ def fam_arc_core(tier="quick"):
     return L
 
 
+def fam_chain_spin():
+    """Two threads spinning at the same time in a chain: main waits for thread 1, which waits for thread 2
+    (the lowest thread indices spin, the highest one makes progress possible). Every loop exits in every
+    fair execution, so the exploration must finish without the branch limit."""
+    L = []
+    for o_st, o_ld in (("rel", "acq"), ("rlx", "rlx"), ("sc", "sc")):
+        L.append(prog_line(f"spC{o_st}0", ["A0", "A0"], [["sp 1", "sp 2", f"aw 1 1 {o_ld}", "jn 1", "jn 2"], [f"aw 0 1 {o_ld}", f"st 1 1 {o_st}"], [f"st 0 1 {o_st}"]]))
+        L.append(prog_line(f"spC{o_st}1", ["A0", "A0"], [["sp 1", "sp 2", f"aw 1 1 {o_ld}", "jn 1", "jn 2"], [f"aw 0 1 {o_ld}", f"st 1 1 {o_st}"], ["yl", f"st 0 1 {o_st}"]]))
+    L.append(prog_line("spC3", ["A0", "A0", "A0"], [["sp 1", "sp 2", "sp 3", "aw 2 1 acq", "jn 1", "jn 2", "jn 3"], ["aw 1 1 acq", "st 2 1 rel"], ["aw 0 1 acq", "st 1 1 rel"], ["st 0 1 rel"]], mb=400))
+    return L
+
+
 def fam_spin_core(tier="quick"):
     """F-spin (C18): one await loop over atomics written once by another thread."""
     L = []
@@ -976,6 +988,10 @@ def fam_fut_core(tier="quick"):
     L.append(prog_line("fuN0", ["A0", "W"], [["bo 0 1 1"]]))
     L.append(prog_line("fuN1", ["A0", "W"], [["sp 1", "bo 0 1 1", "jn 1"], ["wk 1"]]))
     L.append(prog_line("fuN2", ["A1", "W"], [["bo 0 1 1", "tkw 1"]]))
+    # a second block_on on the same AtomicWaker after the first one finished WITHOUT being woken (its waker is
+    # still registered): wake() must reach the latest registration
+    L.append(prog_line("fuD2", ["A0", "W", "A0"], [["sp 1", "bo 0 1 1", "bo 2 1 1", "jn 1", "tkw 1"], ["st 0 1 rel", "st 2 1 rel", "wk 1"]]))
+    L.append(prog_line("fuD4", ["A1", "W", "A0"], [["sp 1", "bo 0 1 1", "bo 2 1 1", "jn 1", "tkw 1"], ["st 2 1 rel", "wk 1"]]))
     # wakers handed out directly: the first Pending poll spawns the waking threads with one clone
     # of the waker each (no AtomicWaker in between, so the wake itself must carry the ordering)
     s1 = ["wme", "st 0 1 rlx ; wme", "st 0 1 rel ; wme", "wme ; st 0 1 rel", "st 0 1 rel", "wme ; wme"]
